@@ -116,6 +116,80 @@ func (p phase) groupGapMs() int {
 
 var inconclusivePaced int64
 
+// lateReread counts port-scan events whose fields were read again after the reports of
+// their burst were complete, lateAfterReport those of them that were read again after the
+// same detector had made at least one further report (generator health).
+var lateReread, lateAfterReport int64
+
+// reread compares what the retained port-scan events of one canary say now with what
+// they said when they were delivered. Event channels hand events to pushers that queue
+// them and serialise them later, so an event must list the ports its source probed
+// whenever it is read, not only at the moment of Send. marks[w] is the position of the
+// first event of burst w's window.
+func reread(l cl.Local, c scanCase, k *cl.Canary, marks []int) (error, error) {
+	late, err := k.Late()
+	if err != nil {
+		return nil, err
+	}
+	evs := k.Events()
+	idx := make([]int, 0, len(late))
+	for i := range late {
+		idx = append(idx, i)
+	}
+	sort.Ints(idx)
+	last := -1
+	if len(idx) > 0 {
+		last = idx[len(idx)-1]
+	}
+	for _, i := range idx {
+		if i >= len(evs) {
+			return nil, fmt.Errorf("the child retained event %d, the harness received %d events", i, len(evs))
+		}
+		then, now := evs[i], late[i]
+		if then.Str("category") != "portscan" {
+			return nil, fmt.Errorf("retained event %d is a %q event on the harness side", i, then.Str("category"))
+		}
+		atomic.AddInt64(&lateReread, 1)
+		if i < last {
+			atomic.AddInt64(&lateAfterReport, 1)
+		}
+		w := 0
+		for w+1 < len(marks) && marks[w+1] <= i {
+			w++
+		}
+		src := then.Str("source-ip")
+		var want []string
+		if w < len(c.Phases) {
+			for p := range c.Phases[w].expected()[src] {
+				want = append(want, p)
+			}
+			sort.Strings(want)
+		}
+		later := 0
+		for _, j := range idx {
+			if j > i {
+				later++
+			}
+		}
+		for _, f := range []string{"source-ip", "destination-ip"} {
+			if then.Str(f) != now.Str(f) {
+				return fmt.Errorf("burst %d of %d: the port-scan event said %s=%q when it was delivered and says %q when read after the reports of the burst were complete (%d later port-scan event(s) from the same listener)",
+					w+1, len(c.Phases), f, then.Str(f), now.Str(f), later), nil
+			}
+		}
+		p0, ok0 := then.Strings("portscan.ports")
+		p1, ok1 := now.Strings("portscan.ports")
+		if !ok0 {
+			continue // malformed at delivery: the burst's own verdict
+		}
+		if !ok1 || strings.Join(p0, ",") != strings.Join(p1, ",") {
+			return fmt.Errorf("burst %d of %d: source %s probed exactly %s; its port-scan event listed %s when it was delivered to the event channel and lists %s when read after the reports of the burst were complete (the listener has sent %d later port-scan event(s); a pusher that queues events and serialises them afterwards reports this list)%s",
+				w+1, len(c.Phases), src, short(want), short(p0), short(p1), later, c.wire(w)), nil
+		}
+	}
+	return nil, nil
+}
+
 type scanCase struct {
 	Phases []phase `json:"phases"`
 	Hold   int     `json:"hold,omitempty"` // 1-based source whose port-scan events the channel delivers slowly
@@ -154,7 +228,8 @@ func env(t testing.TB) cl.Local {
 }
 
 func config(l cl.Local, c scanCase) cl.Config {
-	cfg := cl.Config{Interfaces: []string{l.Name}, Start: true}
+	// the channel keeps the port-scan events as delivered; runBatch reads them again later
+	cfg := cl.Config{Interfaces: []string{l.Name}, Start: true, Retain: "portscan"}
 	for _, p := range sources {
 		cfg.ARP = append(cfg.ARP, cl.ARPEntry{IP: p.IP.String(), MAC: p.MAC.String(), Interface: l.Name})
 	}
@@ -413,7 +488,8 @@ func runBatch(l cl.Local, cases []scanCase) ([]error, error) {
 	verdicts := make([]error, len(cases))
 	pacedCalls := make([]int, len(cases))
 	pacedNow := make([]bool, len(cases))
-	dropped := make([]bool, len(cases)) // inconclusive: never judged
+	dropped := make([]bool, len(cases))  // inconclusive: never judged
+	windows := make([][]int, len(cases)) // per case: position of the first event of every burst's window
 	for ph := 0; ph < nph; ph++ {
 		marks := make([]int, len(cases))
 		var wg sync.WaitGroup
@@ -421,6 +497,7 @@ func runBatch(l cl.Local, cases []scanCase) ([]error, error) {
 		var sendMu sync.Mutex
 		for i, c := range cases {
 			marks[i] = len(ks[i].Events())
+			windows[i] = append(windows[i], marks[i])
 			if ph >= len(c.Phases) {
 				continue
 			}
@@ -552,6 +629,18 @@ func runBatch(l cl.Local, cases []scanCase) ([]error, error) {
 				}
 				verdicts[i] = fmt.Errorf("burst %d of %d: %v%s%s%s%s", ph+1, len(c.Phases), v, waited, hold, pace, c.wire(ph))
 			}
+		}
+		// second reading: the events of this and of all earlier bursts, kept by the channel
+		// as delivered, are read again now that every report of the burst has been made
+		for i, c := range cases {
+			if verdicts[i] != nil || dropped[i] {
+				continue
+			}
+			v, err := reread(l, c, ks[i], windows[i])
+			if err != nil {
+				return nil, fmt.Errorf("reading the retained events again: %v (child: %s)", err, ch.Death())
+			}
+			verdicts[i] = v
 		}
 	}
 	return verdicts, nil
@@ -852,13 +941,13 @@ func dims(c scanCase) []string {
 	return out
 }
 
-const ruleText = "scan cases of 1..3 bursts; a burst has 1..150 probes (TCP SYN with/without options to 17 ports or to distinct high ports, UDP with 0/1/4/18 payload bytes to 11 undecoded ports or distinct high ports, ICMP echo with 0/1/16/32 payload bytes) with repeated ports from 1..4 sources (three behind one router hardware address) in rapid-drawn interleavings, written to the socketpair of hooked canaries running the real Start() loop and knock detector in a child; 48-96 independent canaries share the detector ticks of a batch. A later burst of a case (same source and protocol again, other sources, or anything) is sent after the previous burst's reports are complete and one more tick was observed. Two fifths of the first bursts take their time: 0/1/50/100/101/102/120 probes back to back, the others evenly spread over 5.5 s or 10.5 s (more than one / two detector periods; gaps <= 1.5 s and <= 2 s between probes of one source and protocol, measured in the child - a burst whose probes were really written >= 2.5 s apart or that took >= 2 s longer than planned is dropped as inconclusive), three quarters of those with 101..150 probes. Source ports per source of a case: a fresh ephemeral port per probe (2/5), one fixed source port for all its probes in all bursts (2/5; 20, 53, 80, 88, 1024, 32768, 40000, 61000, 65535 - ICMP: fixed echo identifier and sequence number) or a port derived from the probed port (1/5), so that a later burst probing a port again repeats the source/destination port pair of the earlier burst. Link-layer framing per case: frames ending with the IP datagram (2/5), short frames padded to the 60-byte Ethernet minimum (2/5), or trailers of 1/2/3/4/5/6/7/17/18/19/22/46/64/300 bytes, padded and exact frames mixed (1/5) - the trailer is not part of the datagram, the probe counts all the same. In a fifth of the multi-source cases the event channel takes 1.2 s per port-scan event of one source and 101..150 probes of another source arrive while such an event is being delivered. Oracle per burst and (source, destination): the concatenation of portscan.ports over the events of the burst's window is duplicate-free and equals the distinct protocol/port pairs that source probed in the burst; no event for a source that sent nothing in it; a source that probed over k protocols in the burst is reported in at most k events (the listener groups by protocol) - more means one burst was reported in pieces. non-trivial = a repeated protocol/port pair, >= 3 (source, protocol) groups live at a tick, a (source, protocol) group scanning again in a later burst, a slow-channel case, or a paced burst; plus all operation sequences of length <= 6 over 3 keys on the grouping container UniqueSet against an ordered-set model"
+const ruleText = "scan cases of 1..3 bursts; a burst has 1..150 probes (TCP SYN with/without options to 17 ports or to distinct high ports, UDP with 0/1/4/18 payload bytes to 11 undecoded ports or distinct high ports, ICMP echo with 0/1/16/32 payload bytes) with repeated ports from 1..4 sources (three behind one router hardware address) in rapid-drawn interleavings, written to the socketpair of hooked canaries running the real Start() loop and knock detector in a child; 48-96 independent canaries share the detector ticks of a batch. A later burst of a case (same source and protocol again, other sources, or anything) is sent after the previous burst's reports are complete and one more tick was observed. Two fifths of the first bursts take their time: 0/1/50/100/101/102/120 probes back to back, the others evenly spread over 5.5 s or 10.5 s (more than one / two detector periods; gaps <= 1.5 s and <= 2 s between probes of one source and protocol, measured in the child - a burst whose probes were really written >= 2.5 s apart or that took >= 2 s longer than planned is dropped as inconclusive), three quarters of those with 101..150 probes. Source ports per source of a case: a fresh ephemeral port per probe (2/5), one fixed source port for all its probes in all bursts (2/5; 20, 53, 80, 88, 1024, 32768, 40000, 61000, 65535 - ICMP: fixed echo identifier and sequence number) or a port derived from the probed port (1/5), so that a later burst probing a port again repeats the source/destination port pair of the earlier burst. Link-layer framing per case: frames ending with the IP datagram (2/5), short frames padded to the 60-byte Ethernet minimum (2/5), or trailers of 1/2/3/4/5/6/7/17/18/19/22/46/64/300 bytes, padded and exact frames mixed (1/5) - the trailer is not part of the datagram, the probe counts all the same. In a fifth of the multi-source cases the event channel takes 1.2 s per port-scan event of one source and 101..150 probes of another source arrive while such an event is being delivered. Oracle per burst and (source, destination): the concatenation of portscan.ports over the events of the burst's window is duplicate-free and equals the distinct protocol/port pairs that source probed in the burst; no event for a source that sent nothing in it; a source that probed over k protocols in the burst is reported in at most k events (the listener groups by protocol) - more means one burst was reported in pieces. Two readings of every port-scan event: the capture channel serialises it inside Send and keeps the event object; after every burst (reports complete plus one tick) the retained events of this and all earlier bursts are read again - source, destination and port list must be what they were at delivery (a pusher queues events and marshals them later; an event must not change under it when the detector builds its next report). non-trivial = a repeated protocol/port pair, >= 3 (source, protocol) groups live at a tick, a (source, protocol) group scanning again in a later burst, a slow-channel case, or a paced burst; plus all operation sequences of length <= 6 over 3 keys on the grouping container UniqueSet against an ordered-set model"
 
 // kind reduces an oracle message to its failure kind.
 func kind(err error) string {
 	m := err.Error()
 	var ks []string
-	for _, k := range []string{"never reported []", "listed more than once []", "not probed []", "which sent nothing", "port-scan events for one burst", "without a portscan.ports", "for destination", "burst 1 of", "was being delivered", "as in an earlier burst", "behind the IP datagram"} {
+	for _, k := range []string{"never reported []", "listed more than once []", "not probed []", "which sent nothing", "port-scan events for one burst", "without a portscan.ports", "for destination", "burst 1 of", "was being delivered", "as in an earlier burst", "behind the IP datagram", "when it was delivered"} {
 		if strings.Contains(m, k) {
 			ks = append(ks, k)
 		}
@@ -969,6 +1058,12 @@ func TestBursts(t *testing.T) {
 	})
 	if n := atomic.SwapInt64(&inconclusivePaced, 0); n > 0 {
 		r.Label("paced/inconclusive-sender-stalled", n)
+	}
+	if n := atomic.SwapInt64(&lateReread, 0); n > 0 {
+		r.Label("late-read/portscan-events-read-again-after-the-burst", n)
+	}
+	if n := atomic.SwapInt64(&lateAfterReport, 0); n > 0 {
+		r.Label("late-read/read-again-after-a-later-report-of-the-same-detector", n)
 	}
 	if e := box.Err(); e != nil {
 		t.Fatalf("infra: %v", e)
@@ -1153,6 +1248,12 @@ func TestBurstShapes(t *testing.T) {
 	}
 	if n := atomic.SwapInt64(&inconclusivePaced, 0); n > 0 {
 		r.Label("paced/inconclusive-sender-stalled", n)
+	}
+	if n := atomic.SwapInt64(&lateReread, 0); n > 0 {
+		r.Label("late-read/portscan-events-read-again-after-the-burst", n)
+	}
+	if n := atomic.SwapInt64(&lateAfterReport, 0); n > 0 {
+		r.Label("late-read/read-again-after-a-later-report-of-the-same-detector", n)
 	}
 	if err != nil {
 		t.Fatalf("infra: %v", err)
